@@ -171,115 +171,117 @@ def IsLinkWr (c : Cfg) (disk : Std.HashMap Nat Bytes) (v : Nat) (e : Ev) : Prop 
 def RemoveWrites (c : Cfg) (disk : Std.HashMap Nat Bytes) (v : Nat) (W : List Ev) : Prop :=
   W = [] ∨ ∃ link bm, W = bm ++ [link] ∧ IsLinkWr c disk v link ∧ (link.status ≠ 0 → bm = []) ∧ BmOrder c v bm
 
-theorem removeEntry_write_set (c : Cfg) (v pSect : Nat) (name : Bytes) (s : St)
-    (hnc : isDIRCACHE (c.vol v).dosType = false) :
-    Post AnyFault c (removeEntry v pSect name) s (fun _ s' =>
-      ∃ W, writesOf s'.trace = W ++ writesOf s.trace ∧ RemoveWrites c s.disk v W) := by
-  unfold removeEntry
+/-- the device writes of the first half of `adfRemoveEntry` (`removeEntryUnlink`): nothing, or the one link block; the call
+    goes on exactly when that write succeeded -/
+def UnlinkW (c : Cfg) (disk : Std.HashMap Nat Bytes) (v : Nat) : Bool → List Ev → Prop
+  | false, W => W = [] ∨ ∃ link, W = [link] ∧ IsLinkWr c disk v link
+  | true, W => ∃ link, W = [link] ∧ IsLinkWr c disk v link ∧ link.status = 0
+
+theorem removeEntryUnlink_write_set (c : Cfg) (v pSect : Nat) (name : Bytes) (s : St) :
+    Post AnyFault c (removeEntryUnlink v pSect name) s (fun r s' =>
+      ∃ W, writesOf s'.trace = W ++ writesOf s.trace ∧ UnlinkW c s.disk v r.2.isSome W) := by
+  have none' : ∀ (rc : RC) (s' : St), Quiet s s' → ∃ W, writesOf s'.trace = W ++ writesOf s.trace ∧
+      UnlinkW c s.disk v (rc, (none : Option (Blk × Blk × Nat))).2.isSome W :=
+    fun rc s' hq => ⟨[], by rw [hq.2.2]; rfl, Or.inl rfl⟩
+  unfold removeEntryUnlink
   apply Post.bind; apply Post.getVolCfg
   apply Post.bind; apply readEntryBlock_full
   intro rc parent s1 _ hc1 hd1 hw1 hpar
   simp only
   by_cases hrc : rc ≠ rcOK
-  · rw [if_pos hrc]; exact Post.pure _ _ _ _ ⟨[], by simpa using hw1, Or.inl rfl⟩
+  · rw [if_pos hrc]; exact Post.pure _ _ _ _ (none' _ s1 ⟨hd1, hc1, hw1⟩)
   · rw [if_neg hrc]
     have hpar' := hpar (by simpa using hrc)
     apply Post.bind
     refine Post.mono _ _ _ _ _ (nameToEntryBlk_quiet c v parent name s s1 ⟨hd1, hc1, hw1⟩) ?_
     rintro ⟨ns, entry, nSect2⟩ s2 hq2
     cases ns with
-    | none => exact Post.pure _ _ _ _ ⟨[], by simpa using hq2.2.2, Or.inl rfl⟩
+    | none => exact Post.pure _ _ _ _ (none' _ s2 hq2)
     | some nSect =>
       dsimp only
       by_cases hA : entry.secType = ST_DIR ∧ (!isDirEmpty entry) = true
-      · rw [if_pos hA]; exact Post.pure _ _ _ _ ⟨[], by simpa using hq2.2.2, Or.inl rfl⟩
+      · rw [if_pos hA]; exact Post.pure _ _ _ _ (none' _ s2 hq2)
       · rw [if_neg hA]
         by_cases hB : entry.secType ≠ ST_FILE ∧ entry.secType ≠ ST_DIR
-        · rw [if_pos hB]; exact Post.pure _ _ _ _ ⟨[], by simpa using hq2.2.2, Or.inl rfl⟩
+        · rw [if_pos hB]; exact Post.pure _ _ _ _ (none' _ s2 hq2)
         · rw [if_neg hB]
-          simp only [hnc, Bool.false_eq_true, if_false]
-          -- what follows a successful link write: only memory operations and reads, then the bitmap update
-          have tail : ∀ (link : Ev) (s3 : St), IsLinkWr c s.disk v link → link.status = 0 →
-              writesOf s3.trace = link :: writesOf s.trace →
-              Post AnyFault c
-                (if entry.secType = ST_FILE then do
-                    let rc ← freeFileBlocks v entry
-                    if rc ≠ rcOK then pure rc
-                      else do
-                        setBlockFree v nSect
-                        updateBitmap v
-                  else do
-                    setBlockFree v nSect
-                    updateBitmap v)
-                s3 (fun _ s' => ∃ W, writesOf s'.trace = W ++ writesOf s.trace ∧ RemoveWrites c s.disk v W) := by
-            intro link s3 hlink hst hw3
-            have fin : ∀ s4, Quiet s3 s4 → Post AnyFault c (updateBitmap v) s4
-                (fun _ s' => ∃ W, writesOf s'.trace = W ++ writesOf s.trace ∧ RemoveWrites c s.disk v W) := by
-              intro s4 hq4
-              refine Post.mono _ _ _ _ _ (updateBitmap_order c v s4) ?_
-              rintro _ s5 ⟨bm, hbm, hord⟩
-              refine ⟨bm ++ [link], ?_, Or.inr ⟨link, bm, rfl, hlink, fun h => absurd hst h, hord⟩⟩
-              rw [hbm, hq4.2.2, hw3]; simp
-            split
-            · apply Post.bind
-              refine Post.mono _ _ _ _ _ (freeFileBlocks_quiet c v entry s3 s3 (Quiet.rfl' s3)) ?_
-              intro rc3 s4 hq4
-              split
-              · exact Post.pure _ _ _ _ ⟨[link], by rw [hq4.2.2, hw3]; rfl,
-                  Or.inr ⟨link, [], rfl, hlink, fun _ => rfl, Or.inl rfl⟩⟩
-              · apply Post.bind
-                refine Post.mono _ _ _ _ _ (setBlockFree_quiet c v _ s3 s4 hq4) ?_
-                intro _ s5 hq5
-                exact fin s5 hq5
-            · apply Post.bind
-              refine Post.mono _ _ _ _ _ (setBlockFree_quiet c v _ s3 s3 (Quiet.rfl' s3)) ?_
-              intro _ s5 hq5
-              exact fin s5 hq5
           -- the link write itself
           have linkwr : ∀ (n : Nat) (blk : Blk) (k x : Nat) (s2' : St), Quiet s s2' →
               blk = blkOfBytes ((s.sector (vsect c v n)).take 512) →
-              Post AnyFault c (writeEntryBlock v n (blk.setW k x)) s2' (fun rc s3 =>
-                (rc ≠ rcOK → ∃ W, writesOf s3.trace = W ++ writesOf s.trace ∧ RemoveWrites c s.disk v W) ∧
-                (rc = rcOK → ∃ link, IsLinkWr c s.disk v link ∧ link.status = 0 ∧ writesOf s3.trace = link :: writesOf s.trace)) := by
+              Post AnyFault c (do
+                  let rc ← writeEntryBlock v n (blk.setW k x)
+                  if rc ≠ rcOK then pure (rc, none) else pure (rcOK, some (parent, entry, nSect)) : Prog (RC × Option (Blk × Blk × Nat))) s2'
+                (fun r s' => ∃ W, writesOf s'.trace = W ++ writesOf s.trace ∧ UnlinkW c s.disk v r.2.isSome W) := by
             intro n blk k x s2' hq hblk
             unfold writeEntryBlock
-            apply Post.volWriteW
+            apply Post.bind; apply Post.volWriteW
             intro rc s3 _ _ hw
             have hl : ∀ st, IsLinkWr c s.disk v (Ev.wr (some v) (vsect c v n) 512 (bytesOfBlk (withSum (blk.setW k x) F_checkSum)) st) := by
               intro st; exact ⟨n, k, x, st, by rw [hblk]; rfl⟩
             rcases hw with ⟨hw, hne⟩ | ⟨st, hw, hst⟩
-            · exact ⟨fun _ => ⟨[], by rw [hw, hq.2.2]; rfl, Or.inl rfl⟩, fun h => absurd h hne⟩
-            · refine ⟨fun hne => ⟨[_], by rw [hw, hq.2.2]; rfl, Or.inr ⟨_, [], rfl, hl st, fun _ => rfl, Or.inl rfl⟩⟩,
-                       fun hok => ⟨_, hl st, hst.mp hok, by rw [hw, hq.2.2]⟩⟩
+            · rw [if_pos hne]; exact Post.pure _ _ _ _ ⟨[], by rw [hw, hq.2.2]; rfl, Or.inl rfl⟩
+            · by_cases hr : rc ≠ rcOK
+              · rw [if_pos hr]; exact Post.pure _ _ _ _ ⟨[_], by rw [hw, hq.2.2]; rfl, Or.inr ⟨_, rfl, hl st⟩⟩
+              · rw [if_neg hr]; exact Post.pure _ _ _ _ ⟨[_], by rw [hw, hq.2.2]; rfl, _, rfl, hl st, hst.mp (Classical.not_not.mp hr)⟩
           by_cases h0 : nSect2 = 0
           · rw [if_pos h0]
-            apply Post.bind
             unfold Blk.setHash
-            refine Post.mono _ _ _ _ _ (linkwr pSect parent _ _ s2 hq2 hpar') ?_
-            intro rc3 s3 ⟨hbad, hgood⟩
-            by_cases hrc3 : rc3 ≠ rcOK
-            · rw [if_pos hrc3]; exact Post.pure _ _ _ _ (hbad hrc3)
-            · rw [if_neg hrc3]
-              obtain ⟨link, hl, hst, hw3⟩ := hgood (by simpa using hrc3)
-              exact tail link s3 hl hst hw3
+            exact linkwr pSect parent _ _ s2 hq2 hpar'
           · rw [if_neg h0]
             apply Post.bind; apply readEntryBlock_full
             intro rcp previous s2b _ hc2b hd2b hw2b hprev
             simp only
             by_cases hrcp : rcp ≠ rcOK
-            · rw [if_pos hrcp]; exact Post.pure _ _ _ _ ⟨[], by rw [hw2b, hq2.2.2]; rfl, Or.inl rfl⟩
+            · rw [if_pos hrcp]; exact Post.pure _ _ _ _ (none' _ s2b ⟨hd2b.trans hq2.1, hc2b.trans hq2.2.1, hw2b.trans hq2.2.2⟩)
             · rw [if_neg hrcp]
               have hq2b : Quiet s s2b := ⟨hd2b.trans hq2.1, hc2b.trans hq2.2.1, hw2b.trans hq2.2.2⟩
               have hprev' : previous = blkOfBytes ((s.sector (vsect c v nSect2)).take 512) := by
                 rw [hprev (by simpa using hrcp)]; simp only [St.sector, hq2.1]
-              apply Post.bind
-              refine Post.mono _ _ _ _ _ (linkwr nSect2 previous _ _ s2b hq2b hprev') ?_
-              intro rc3 s3 ⟨hbad, hgood⟩
-              by_cases hrc3 : rc3 ≠ rcOK
-              · rw [if_pos hrc3]; exact Post.pure _ _ _ _ (hbad hrc3)
-              · rw [if_neg hrc3]
-                obtain ⟨link, hl, hst, hw3⟩ := hgood (by simpa using hrc3)
-                exact tail link s3 hl hst hw3
+              exact linkwr nSect2 previous _ _ s2b hq2b hprev'
+
+theorem removeEntry_write_set (c : Cfg) (v pSect : Nat) (name : Bytes) (s : St)
+    (hnc : isDIRCACHE (c.vol v).dosType = false) :
+    Post AnyFault c (removeEntry v pSect name) s (fun _ s' =>
+      ∃ W, writesOf s'.trace = W ++ writesOf s.trace ∧ RemoveWrites c s.disk v W) := by
+  unfold removeEntry
+  apply Post.bind; apply Post.getVolCfg
+  apply Post.bind
+  refine Post.mono _ _ _ _ _ (removeEntryUnlink_write_set c v pSect name s) ?_
+  rintro ⟨rc, cont⟩ s3 ⟨W, hW, hU⟩
+  cases cont with
+  | none =>
+    apply Post.pure
+    rcases hU with h0 | ⟨link, hWl, hl⟩
+    · exact ⟨W, hW, Or.inl h0⟩
+    · exact ⟨W, hW, Or.inr ⟨link, [], by rw [hWl]; rfl, hl, fun _ => rfl, Or.inl rfl⟩⟩
+  | some pen =>
+    obtain ⟨parent, entry, nSect⟩ := pen
+    obtain ⟨link, hWl, hlink, hst⟩ := hU
+    have hw3 : writesOf s3.trace = link :: writesOf s.trace := by rw [hW, hWl]; rfl
+    dsimp only
+    simp only [hnc, Bool.false_eq_true, if_false]
+    have fin : ∀ s4, Quiet s3 s4 → Post AnyFault c (updateBitmap v) s4
+        (fun _ s' => ∃ W, writesOf s'.trace = W ++ writesOf s.trace ∧ RemoveWrites c s.disk v W) := by
+      intro s4 hq4
+      refine Post.mono _ _ _ _ _ (updateBitmap_order c v s4) ?_
+      rintro _ s5 ⟨bm, hbm, hord⟩
+      refine ⟨bm ++ [link], ?_, Or.inr ⟨link, bm, rfl, hlink, fun h => absurd hst h, hord⟩⟩
+      rw [hbm, hq4.2.2, hw3]; simp
+    split
+    · apply Post.bind
+      refine Post.mono _ _ _ _ _ (freeFileBlocks_quiet c v entry s3 s3 (Quiet.rfl' s3)) ?_
+      intro rc3 s4 hq4
+      split
+      · exact Post.pure _ _ _ _ ⟨[link], by rw [hq4.2.2, hw3]; rfl,
+          Or.inr ⟨link, [], rfl, hlink, fun _ => rfl, Or.inl rfl⟩⟩
+      · apply Post.bind
+        refine Post.mono _ _ _ _ _ (setBlockFree_quiet c v _ s3 s4 hq4) ?_
+        intro _ s5 hq5
+        exact fin s5 hq5
+    · apply Post.bind
+      refine Post.mono _ _ _ _ _ (setBlockFree_quiet c v _ s3 s3 (Quiet.rfl' s3)) ?_
+      intro _ s5 hq5
+      exact fin s5 hq5
 
 /-- at most one block is written, and it is addressed to sector `sec` of volume `v` -/
 def OneWriteTo (c : Cfg) (v : Nat) (W : List Ev) : Prop :=
